@@ -13,7 +13,7 @@ import os.path
 import runpy
 import sys
 from pathlib import Path
-from typing import IO, TYPE_CHECKING, List, Optional, Tuple
+from typing import IO, TYPE_CHECKING, List, Optional, Set, Tuple
 
 from libcst import Module, parse_module
 from libcst.codemod import CodemodContext
@@ -146,6 +146,23 @@ class HandlerError(Exception):
     pass
 
 
+def _all_import_items(gatherer: GatherImportsVisitor) -> Set[ImportItem]:
+    """Every import the visited module makes.
+
+    symbol_mapping only keeps the last import bound to each name, so an import
+    whose name is bound again later (e.g. by a function-local import) would
+    otherwise be missed.
+    """
+    items = set(gatherer.symbol_mapping.values())
+    items.update(ImportItem(m) for m in gatherer.module_imports)
+    items.update(ImportItem(m, alias=a) for m, a in gatherer.module_aliases.items())
+    for module, objs in gatherer.object_mapping.items():
+        items.update(ImportItem(module, obj_name=o) for o in objs)
+    for module, aliases in gatherer.alias_mapping.items():
+        items.update(ImportItem(module, obj_name=o, alias=a) for o, a in aliases)
+    return items
+
+
 def get_newly_imported_items(
     stub_module: Module, source_module: Module
 ) -> List[ImportItem]:
@@ -157,9 +174,9 @@ def get_newly_imported_items(
     context = CodemodContext()
     gatherer = GatherImportsVisitor(context)
     source_module.visit(gatherer)
-    source_imports = list(gatherer.symbol_mapping.values())
+    source_imports = _all_import_items(gatherer)
 
-    return list(set(stub_imports).difference(set(source_imports)))
+    return list(set(stub_imports).difference(source_imports))
 
 
 def apply_stub_using_libcst(
